@@ -37,21 +37,28 @@ RawOnly == { <<"f","n">> }            \* keywords: only usable as r#fn
 Reserved == { <<"n","e","w">>, <<"s","e","r","v","e">> }
 
 (* argty "ctx": a single argument that is itself called `ctx` and is a tarpc Context - the name the generated  *)
-(* glue uses for the request's context                                                                       *)
-Method == [name : Names, nargs : 0..2, argty : {"same", "diff", "ctx"}, ret : {"unit", "int", "str"}]
+(* glue uses for the request's context; "pattern": one argument written as a tuple pattern; "selfarg": a      *)
+(* method that takes `self` first - both refused by the macro's parser                                        *)
+Method == [name : Names, nargs : 0..2, argty : {"same", "diff", "ctx", "pattern", "selfarg"}, ret : {"unit", "int", "str"}]
+(* the macro's own arguments: none, derive = [..], derive_serde = false (deprecated form), both at once      *)
+(* (refused), derive twice (refused)                                                                          *)
+Attrs == {"none", "derive", "serde_false", "both", "twice"}
 
-VARIABLE svc
-Init == svc = <<>>
+VARIABLES svc, attr
+Init == svc = <<>> /\ attr \in Attrs
 Next == /\ Len(svc) < MaxMethods
         /\ \E m \in Method :
-             /\ (m.nargs = 0 => m.argty = "same") /\ (m.nargs = 1 => m.argty \in {"same", "ctx"}) /\ (m.nargs = 2 => m.argty \in {"same", "diff"})
+             /\ (m.nargs = 0 => m.argty = "same") /\ (m.nargs = 1 => m.argty \in {"same", "ctx", "selfarg"})
+             /\ (m.nargs = 2 => m.argty \in {"same", "diff", "pattern"})
              /\ \A i \in DOMAIN svc : svc[i].name # m.name            \* Rust itself rejects duplicate fn names
              /\ svc' = Append(svc, m)
-Spec == Init /\ [][Next]_svc
+        /\ UNCHANGED attr
+Spec == Init /\ [][Next]_<<svc, attr>>
 
 Variant(m) == SnakeToCamel(m.name)
 Accepted == /\ \A i \in DOMAIN svc : svc[i].name \notin Reserved
-            /\ \A i \in DOMAIN svc : svc[i].argty # "ctx"       \* would shadow / duplicate the glue's own `ctx`
+            /\ \A i \in DOMAIN svc : svc[i].argty \notin {"ctx", "pattern", "selfarg"}   \* `ctx` would shadow the glue's own context
+            /\ attr \notin {"both", "twice"}
             /\ \A i, j \in DOMAIN svc : i # j => Variant(svc[i]) # Variant(svc[j])
 
 (* sanity laws of the transcription: a variant has no underscore and starts upper-case *)
